@@ -1119,30 +1119,67 @@ def edges_pruned_for_version(b, version, param_rx=r'^param:\d+$'):
         if hit and t['else'] not in hit:
             removed.add((i, t['else']))
         removed -= set((i, bb) for bb in (hit or [t['else']]))
-    # `matches!(v, A | B)` goes through a bool local: the arms of the discriminant switch assign a constant to it and rejoin at a
-    # switch on that local - with the dead arms pruned, only assignments of one constant are still reachable
-    for _ in range(2):
+    # `matches!(v, A | B)` and `let legacy = v == A || v == B;` go through a bool local: the arms assign a constant (or the result of
+    # another version test) to it and rejoin at a switch on that local - with the dead arms pruned, the assignments that are still
+    # reachable all give one value
+    def eq_value(call):
+        m = re.search(r'PartialEq::(eq|ne)$', call['f'].get('fn', '') or '')
+        if not m or 'KeyVersion' not in (call['f'].get('full') or '') or len(call['args']) != 2:
+            return None
+        consts, is_param = [], False
+        for a in call['args']:
+            og = b.operand_origins(a)
+            cs = [o.split('::')[-1] for o in og if o.startswith('agg:types::packet::KeyVersion::')]
+            if cs and not has_origin(og, param_rx):
+                consts += cs
+            elif has_origin(og, param_rx):
+                is_param = True
+        if not is_param or len(consts) != 1:
+            return None
+        return (consts[0] == version) != (m.group(1) == 'ne')
+
+    def value_of(L, live, depth=0):
+        """Truth value of bool local L under the version (over the assignments still reachable), or None."""
+        if depth > 4:
+            return None
+        vals = set()
+        for x, blk in enumerate(b.blocks):
+            if blk['c'] or x not in live:
+                continue
+            for st in blk['s']:
+                if st['d']['l'] != L or st['d']['pr']:
+                    continue
+                r = st['r']
+                if r['k'] == 'use' and 'k' in r['o'][0] and isinstance(r['o'][0]['k'].get('v'), (bool, int)):
+                    vals.add(bool(r['o'][0]['k']['v']))
+                elif r['k'] == 'use' and 'l' in r['o'][0] and not r['o'][0]['pr']:
+                    vals.add(value_of(r['o'][0]['l'], live, depth + 1))
+                elif r['k'] == 'un' and r['op'] == 'Not' and 'l' in r['o'][0]:
+                    v = value_of(r['o'][0]['l'], live, depth + 1)
+                    vals.add(None if v is None else (not v))
+                else:
+                    vals.add(None)
+            t = blk['t']
+            if t['k'] == 'call' and not t['d']['pr'] and t['d']['l'] == L:
+                vals.add(eq_value(t))
+        if len(vals) == 1:
+            return vals.pop()
+        return None
+    for _ in range(3):
         live = b.reach_from([0], removed_edges=frozenset(removed))
         for i, t in b.switches():
             if i not in live or t.get('ty') != 'bool' or 'l' not in t['o'] or t['o']['pr']:
                 continue
-            L = t['o']['l']
-            assigns = [(x, st) for x, k, st in b.stmts(lambda st: st['d']['l'] == L and not st['d']['pr'])]
-            if not assigns or any(not (st['r']['k'] == 'use' and 'k' in st['r']['o'][0] and isinstance(st['r']['o'][0]['k'].get('v'), (bool, int))) for x, st in assigns):
+            truth = value_of(t['o']['l'], live)
+            if truth is None:
                 continue
-            if any(blk['t']['k'] == 'call' and not blk['t']['d']['pr'] and blk['t']['d']['l'] == L for blk in b.blocks if not blk['c']):
-                continue
-            vals = set(bool(st['r']['o'][0]['k']['v']) for x, st in assigns if x in live)
-            if len(vals) != 1:
-                continue
-            truth = vals.pop()
             hit = [bb for v, bb in t['targets'] if bool(v) == truth]
             for v, bb in t['targets']:
                 if bool(v) != truth:
                     removed.add((i, bb))
             if hit and t['else'] not in hit:
                 removed.add((i, t['else']))
-            removed -= set((i, bb) for bb in hit)
+            removed -= set((i, bb) for bb in (hit or [t['else']]))
     return removed
 
 
